@@ -180,6 +180,8 @@ func (cr *caseRun) step(w weights) {
 			d := int64(0)
 			if cr.r.Chance(35) {
 				d = deferMs
+			} else if cr.r.Chance(12) {
+				d = overlongReqMs
 			}
 			cr.answer(sc, "REQ", tg, id, d)
 		default:
@@ -214,7 +216,7 @@ func (cr *caseRun) step(w weights) {
 			return
 		}
 		ch := chs[cr.r.Intn(len(chs))]
-		ahead := []time.Duration{0, scanShort, scanShort, scanMid, scanMid, scanAll}[cr.r.Intn(6)]
+		ahead := []time.Duration{0, scanShort, scanShort, scanMid, scanMid, scanLong, scanAll}[cr.r.Intn(7)]
 		cr.opScan(ch[0], ch[1], cr.r.Chance(65), ahead)
 	case "cls":
 		if len(subs) == 0 {
